@@ -77,17 +77,30 @@ def execReason (c : Cfg) : Fail → Option String
   | .keyerr d => some (msgExecOther c.filename d)
   | .other d => some (msgExecOther c.filename d)
 
-/-- the failures of the user switch, of the directory change and of the exec for which the child
-    writes a reason, with that reason.  Not in the table (see `failure_message_and_127_partial`):
-    `setuid` raising (F22) and exception classes the code does not anticipate at a call. -/
+/-- the failures of the user switch, of the directory change and of the exec, with the reason the
+    child writes for each (`none` = not a failure of that kind, see `Raises`) -/
 def reasonFor (c : Cfg) : Call → Fail → Option String
   | .getpwuid u, .keyerr _ => some (msgSetuid u (reasonNoUid u))
   | .setgroups _, .oserr _ _ => c.uid.map fun u => msgSetuid u reasonGroups
   | .setgid _, .oserr _ _ => c.uid.map fun u => msgSetuid u reasonGid
+  | .setuid _, .oserr _ _ => c.uid.map fun u => msgSetuid u reasonUid
   | .chdir d, .oserr _ n => some (msgChdir d n)
   | .umask _, f => execReason c f
   | .execve _ _ _, f => execReason c f
   | _, _ => none
+
+/-- the ways the calls of the user switch, the directory change and the exec fail: the password
+    database lookup with KeyError, the system calls `setgroups`/`setgid`/`setuid`/`chdir` with
+    OSError (any errno), the exec stage (`umask`, `execve`) with any exception whatsoever -/
+def Raises : Call → Fail → Prop
+  | .getpwuid _, f => ∃ d, f = .keyerr d
+  | .setgroups _, f => ∃ e n, f = .oserr e n
+  | .setgid _, f => ∃ e n, f = .oserr e n
+  | .setuid _, f => ∃ e n, f = .oserr e n
+  | .chdir _, f => ∃ e n, f = .oserr e n
+  | .umask _, _ => True
+  | .execve _ _ _, _ => True
+  | _, _ => False
 
 /-- an entry after which the process no longer runs supervisord's code -/
 def Terminal (e : Ev) : Prop := (∃ n, e.call = .exit n) ∨ (e.call.isExecve = true ∧ e.res = none)
@@ -232,7 +245,8 @@ theorem reported_handler (c : Cfg) : ∀ c' h f m, Step.sys c' h ∈ specSteps c
               simp [hGuarded, hr]
             · cases f <;> simp [reasonFor, hu] at hr
               simp [hGuarded, hr]
-            · simp [reasonFor] at hr
+            · cases f <;> simp [reasonFor, hu] at hr
+              simp [hGuarded, hr]
   · split at hm
     · simp at hm; rcases hm with ⟨rfl, rfl⟩
       cases f <;> simp [reasonFor] at hr
@@ -507,18 +521,9 @@ theorem nonroot_refusal_reported (c : Cfg) (orc : Oracle) (u : Int) (hu : c.uid 
     obtain ⟨r, hr⟩ := finalEvs_eq orc (d.length + 1)
     exact ⟨d, _, r, by rw [hrun, finish_report, hr]; rfl⟩
 
-/-- **failure_message_and_127** (partial: see below).  When a call of the user switch, the
-    directory change or the exec fails with a failure listed in `reasonFor`, the very next call
-    writes that reason to descriptor 2, then the final message is written and the child exits
-    with status 127 — and that is the whole rest of the log, whether or not the writes succeed.
-
-    PARTIAL.  The full statement would quantify over *every* failure of `getpwuid`, `setgroups`,
-    `setgid`, `setuid`, `chdir`, `umask`, `execve`.  Missing: **F22** — `os.setuid` is called outside
-    any `try` in `drop_privileges`, so when it raises (EPERM, EAGAIN) no reason is written
-    (`f22_setuid_raises_no_reason`); and exception classes the code does not anticipate at a call
-    (a non-OSError from `chdir`/`setgid`/`setgroups`, an OSError from `getpwuid`).  For all of
-    those `any_failure_exits_127` still gives: no exec, final message, `_exit(127)`. -/
-theorem failure_message_and_127_partial (c : Cfg) (orc : Oracle) (pre post : List Ev) (bad : Ev)
+/-- the engine of `failure_message_and_127`: a failing call for which `reasonFor` lists a reason is
+    followed by the write of exactly that reason, the final message and `_exit(127)`, and nothing else -/
+theorem reason_written (c : Cfg) (orc : Oracle) (pre post : List Ev) (bad : Ev)
     (f : Fail) (m : String) (hlog : childLog c orc = pre ++ bad :: post)
     (hf : bad.res = some f) (hr : reasonFor c bad.call f = some m) :
     ∃ r1 r2, post = ⟨.write 2 m, r1⟩ :: lastWords r2 := by
@@ -611,6 +616,71 @@ theorem failure_message_and_127_partial (c : Cfg) (orc : Oracle) (pre post : Lis
     rcases List.mem_cons.mp hmem with hm | hm
     · subst hm; exact hwrite _ _ _ ⟨hf, hr⟩
     · exact hfinal _ bad hm ⟨hf, hr⟩
+
+/-- **failure_message_and_127.**  Whenever a call of the user switch (`getpwuid`, `setgroups`,
+    `setgid`, `setuid` — F22 fixed), the directory change (`chdir`) or the exec stage (`umask`,
+    `execve`) fails in one of the ways `Raises` lists — every errno, and for the exec stage every
+    exception — the very next call writes the reason to descriptor 2, then the final message is
+    written and the child exits with status 127; that is the whole rest of the log, whether or not
+    the writes succeed.  (`argv ≠ []`: the reason for a failed exec names `argv[0]`;
+    `get_execv_args` never yields an empty argv.)
+
+    Outside `Raises` — a non-OSError exception out of `os.chdir`/`os.setgid`/`os.setgroups`/
+    `os.setuid`, a non-KeyError out of `pwd.getpwuid`, any exception out of `os.getuid`/
+    `grp.getgrall` — these functions do not raise such exceptions for well-typed arguments; were
+    one raised, `any_failure_exits_127` still gives no exec, the final message and `_exit(127)`,
+    without a specific reason. -/
+theorem failure_message_and_127 (c : Cfg) (orc : Oracle) (pre post : List Ev) (bad : Ev) (f : Fail)
+    (hargv : c.argv ≠ []) (hlog : childLog c orc = pre ++ bad :: post)
+    (hf : bad.res = some f) (hr : Raises bad.call f) :
+    ∃ m r1 r2, reasonFor c bad.call f = some m ∧ post = ⟨.write 2 m, r1⟩ :: lastWords r2 := by
+  have hmem : bad ∈ childLog c orc := by rw [hlog]; simp
+  have hex : ∀ f, ∃ m, execReason c f = some m := by
+    intro f
+    cases f with
+    | oserr e n =>
+      cases ha : c.argv with
+      | nil => exact absurd ha hargv
+      | cons a r => exact ⟨msgExec a n, by simp [execReason, ha]⟩
+    | keyerr d => exact ⟨_, rfl⟩
+    | other d => exact ⟨_, rfl⟩
+  have huid : ((∃ gs, bad.call = .setgroups gs) ∨ (∃ g, bad.call = .setgid g) ∨ (∃ u, bad.call = .setuid u)) →
+      ∃ u, c.uid = some u := by
+    intro hc
+    have hp : bad.call.isPrep = true := by
+      rcases hc with ⟨_, h⟩ | ⟨_, h⟩ | ⟨_, h⟩ <;> rw [h] <;> rfl
+    obtain ⟨h, hm⟩ := prep_calls_from_script c orc bad hmem hp
+    obtain ⟨u, hu, _⟩ := priv_step_has_uid c bad.call h hm hc
+    exact ⟨u, hu⟩
+  have hsome : ∃ m, reasonFor c bad.call f = some m := by
+    cases hc : bad.call with
+    | getpwuid u => rw [hc] at hr; obtain ⟨d, rfl⟩ := hr; exact ⟨_, rfl⟩
+    | setgroups gs =>
+      rw [hc] at hr; obtain ⟨e, n, rfl⟩ := hr
+      obtain ⟨u, hu⟩ := huid (Or.inl ⟨gs, hc⟩)
+      exact ⟨msgSetuid u reasonGroups, by simp [reasonFor, hu]⟩
+    | setgid g =>
+      rw [hc] at hr; obtain ⟨e, n, rfl⟩ := hr
+      obtain ⟨u, hu⟩ := huid (Or.inr (Or.inl ⟨g, hc⟩))
+      exact ⟨msgSetuid u reasonGid, by simp [reasonFor, hu]⟩
+    | setuid u' =>
+      rw [hc] at hr; obtain ⟨e, n, rfl⟩ := hr
+      obtain ⟨u, hu⟩ := huid (Or.inr (Or.inr ⟨u', hc⟩))
+      exact ⟨msgSetuid u reasonUid, by simp [reasonFor, hu]⟩
+    | chdir d => rw [hc] at hr; obtain ⟨e, n, rfl⟩ := hr; exact ⟨_, rfl⟩
+    | umask m => obtain ⟨m', hm'⟩ := hex f; exact ⟨m', by simp [reasonFor, hm']⟩
+    | execve a b e => obtain ⟨m', hm'⟩ := hex f; exact ⟨m', by simp [reasonFor, hm']⟩
+    | setpgrp => rw [hc] at hr; exact absurd hr (by simp [Raises])
+    | sockFileno => rw [hc] at hr; exact absurd hr (by simp [Raises])
+    | dup2 a b => rw [hc] at hr; exact absurd hr (by simp [Raises])
+    | close fd => rw [hc] at hr; exact absurd hr (by simp [Raises])
+    | getuid => rw [hc] at hr; exact absurd hr (by simp [Raises])
+    | getgrall => rw [hc] at hr; exact absurd hr (by simp [Raises])
+    | write fd m => rw [hc] at hr; exact absurd hr (by simp [Raises])
+    | exit n => rw [hc] at hr; exact absurd hr (by simp [Raises])
+  obtain ⟨m, hm⟩ := hsome
+  obtain ⟨r1, r2, hp⟩ := reason_written c orc pre post bad f m hlog hf hm
+  exact ⟨m, r1, r2, hm, hp⟩
 
 /-- **never_returns.**  The log always ends with `_exit(127)` — preceded by the final message —
     unless `execve` succeeded, in which case the successful `execve` is the last entry.  (Fix of
@@ -718,7 +788,7 @@ theorem any_failure_exits_127 (c : Cfg) (orc : Oracle) (pre post : List Ev) (bad
     obtain ⟨mid, post', hsplit⟩ := List.append_of_mem hev
     exact no_exec_after_failure c orc pre mid post' bad ev (by rw [hlog, hsplit]) hbad
 
-/-! ### F22 (open): `os.setuid` raising is not reported -/
+/-! ### F22 (fixed in /repo): `os.setuid` raising is reported like the other failures -/
 
 /-- root supervisord, program user 33 -/
 def cfgF22 : Cfg :=
@@ -730,16 +800,10 @@ def cfgF22 : Cfg :=
 /-- `os.setuid` (10th call) fails with EPERM -/
 def orcF22 : Oracle := fun i _ => if i = 9 then some (.oserr 1 "EPERM") else none
 
-/-- the counterexample to the full `failure_message_and_127`: `setuid` fails, and the next call is
-    already the final message — the reason is never written (the exit status is still 127 and
-    the command is not executed). -/
-theorem f22_setuid_raises_no_reason :
-    (childLog cfgF22 orcF22).drop 9 =
-      [⟨.setuid 33, some (.oserr 1 "EPERM")⟩, ⟨.write 2 msg_not_spawned, none⟩, ⟨.exit 127, none⟩] := by
-  decide
-
-/-- the generated exception-guard table says the same: `os.setuid` is inside no `try` -/
-theorem f22_setuid_unguarded : dp_calls.lookup "os.setuid" = some "" := by decide
+-- the former counterexample, now an instance of `failure_message_and_127`
+example : (childLog cfgF22 orcF22).drop 9 =
+    [⟨.setuid 33, some (.oserr 1 "EPERM")⟩, ⟨.write 2 (msgSetuid 33 reasonUid), none⟩] ++ lastWords none := by decide
+example : Raises (.setuid 33) (.oserr 1 "EPERM") := ⟨1, "EPERM", rfl⟩
 
 /-! ### Non-vacuity: concrete runs of every kind -/
 
@@ -753,7 +817,7 @@ def cfgEx : Cfg :=
 example : (childLog cfgEx (fun _ _ => none)).map (·.call) = promisedCalls cfgEx ++ [execCall cfgEx] := by decide
 example : envGet (childEnv cfgEx) "PATH" = some "/opt" ∧ envGet (childEnv cfgEx) "SUPERVISOR_ENABLED" = some "1" ∧
     envGet (childEnv cfgEx) "SUPERVISOR_GROUP_NAME" = some "g" ∧ envGet (childEnv cfgEx) "SUPERVISOR_SERVER_URL" = some "unix:///s" := by decide
--- chdir fails (hypotheses of failure_message_and_127_partial are satisfiable)
+-- chdir fails (hypotheses of failure_message_and_127 are satisfiable)
 example : reasonFor cfgEx (.chdir "/srv") (.oserr 2 "ENOENT") = some (msgChdir "/srv" "ENOENT") := by decide
 example : (childLog cfgEx (fun i _ => if i = 13 then some (.oserr 2 "ENOENT") else none)).drop 13 =
     [⟨.chdir "/srv", some (.oserr 2 "ENOENT")⟩, ⟨.write 2 (msgChdir "/srv" "ENOENT"), none⟩] ++ lastWords none := by decide
